@@ -794,13 +794,13 @@ class Reporter:
         self.seen.add(key)
         # from here on the history is self-contained: nothing is appended to it (no implicit withdrawal)
         still = self._again(upto, mine, svcs, timeout_on, True)
+        self._class_count(mine, san_kind(san), "step")      # every investigation counts
         if not still:
             ctx.note("violation of %s did not repeat on a fresh daemon: [%s] (not reported)" % (sorted(mine), ev_sig(upto)[-300:]))
             return
         small = shrink(ctx, upto, still, svcs, timeout_on, True)
         conj = "+".join(sorted(still))
         kind = san_kind(san)
-        self._class_count(mine, kind, "step")
         sig = "%s%s: %s" % (conj, (" (" + kind + ")") if kind else "", ev_sig(small))
         self.nreports += 1
         ctx.violation("contract conjunct(s) %s violated by the real daemon on history [%s] (%s; reduced from %d events)"
@@ -829,17 +829,18 @@ class Reporter:
                         culprit = c
                         break
         if culprit is None:
+            self._class_count(mine, san_kind(rec.get("san")), "eof")
             ctx.note("end-of-input finding %s of one process (%d behaviours, %s) did not repeat on fresh daemons (not reported)"
                      % (sorted(mine), len(bis), san_kind(rec.get("san"))))
             return
         small = shrink(ctx, culprit, mine, svcs, timeout_on, True)
+        conj = "+".join(sorted(mine))
+        kind = san_kind(rec.get("san"))
+        self._class_count(mine, kind, "eof")        # every investigation counts, also one that finds a known history
         key = (tuple(sorted(mine)), ev_sig(small)[-300:])
         if key in self.seen:
             return
         self.seen.add(key)
-        conj = "+".join(sorted(mine))
-        kind = san_kind(rec.get("san"))
-        self._class_count(mine, kind, "eof")
         sig = "%s%s at end of input after: %s" % (conj, (" (" + kind + ")") if kind else "", ev_sig(small))
         self.nreports += 1
         ctx.violation("end of input after history [%s]: exit status %s, sanitizer report: %s (%s)"
@@ -880,6 +881,7 @@ class Reporter:
             if key in self.seen:
                 continue
             self.seen.add(key)
+            self._class_count(mine, san_kind(rec.get("san", "")), "rt")     # every investigation counts
             # the history up to the item whose record failed (everything when it is the end of input)
             hist = histories[hi] if rec["e"] == "Eof" else histories[hi][:rec.get("it", len(histories[hi])) + 1]
             # must repeat twice on fresh daemons (timing-dependent)
@@ -897,7 +899,6 @@ class Reporter:
                 continue
             conj_s = "+".join(sorted(mine))
             kind = san_kind(rec.get("san", ""))
-            self._class_count(mine, kind, "rt")
             sig = "%s%s real timers: %s" % (conj_s, (" (" + kind + ")") if kind else "", ev_sig(hist))
             self.nreports += 1
             ctx.violation("real timers (timeout %d s, tick %.2f s): contract conjunct(s) %s violated at record %d of timed "
